@@ -16,8 +16,8 @@ import (
 )
 
 func runConcurrent(r *lib.Run) {
-	nAR := r.N(6, 24)
-	perG := r.N(120, 600)
+	nAR := r.N(6, 16)
+	perG := r.N(120, 400)
 	const G = 16
 	rng := r.Rng("concurrent")
 	for _, storage := range []string{"uncompressed", "zstd"} {
@@ -122,7 +122,7 @@ func runConcurrent(r *lib.Run) {
 				}
 				switch {
 				case !sub.expHit && sub.counts["hit"] == total && total > 0:
-					r.Violation("C06:hit-with-missing-blob:absent@"+sub.in.refs[0].Class+":backend", "every one of the concurrent queries answered a hit although a referenced blob is absent", d())
+					r.Violation("C06:hit-with-missing-blob:absent@"+sub.missing[0].Class+":backend", "every one of the concurrent queries answered a hit although a referenced blob is absent", d())
 				case !sub.expHit && sub.counts["hit"] > 0:
 					r.Violation("C06:hit-with-missing-blob:intermittent:backend",
 						fmt.Sprintf("%d of %d concurrent queries answered a hit while the referenced %s %s (%s) is present neither locally nor in the backend; all other answers were misses",
